@@ -557,7 +557,10 @@ func (f *DefaultFanController) setPwm(target int) (err error) {
 	// if we can read the PWM value, we can check if the fan is already at the target value
 	// and avoid unnecessary setPwm calls
 	if f.fan.Supports(fans.FeaturePwmSensor) {
-		current, err := f.getPwm()
+		// ask the fan itself: f.getPwm() falls back to the value requested last (which
+		// is this very target by now) when its own probe of the PWM sensor fails, and
+		// that says nothing about what the fan shows
+		current, err := f.fan.GetPwm()
 		if err == nil && closestExpected == current {
 			// nothing to do
 			return nil
